@@ -244,13 +244,22 @@ pub fn gen_qp(t: &mut Tape, code: usize, ctx: &mut Ctx) -> Qp {
             if seen.insert(i) {
                 // names are arbitrary tokens; some contain fragments that look like (Fortran) number syntax
                 let k = t.choice(9);
-                let nm = match t.choice(6) {
+                let nm = match t.choice(11) {
+                    // names that START like a number (digit, sign, dot) and contain a d / D further on
+                    6 => format!("{i}nd_stage{k}"),
+                    7 => format!("{k}D_pos{i}"),
+                    8 => format!("-delta{i}"),
+                    9 => format!("+Demand{i}"),
+                    10 => format!(".{i}dot_d"),
                     0 => format!("w{i}d{k}"),
                     1 => format!("x{i}D-{k}"),
                     2 => format!("{i}e{k}"),
                     3 => format!("s{i}E+{k}x"),
                     _ => format!("v{i}_{k}"),
                 };
+                if nm.starts_with(|c: char| c.is_ascii_digit() || c == '-' || c == '+' || c == '.') && nm.contains(|c: char| c == 'd' || c == 'D') {
+                    ctx.label("name-starting-like-a-number-with-d-inside");
+                }
                 if nm.contains(|c: char| c == 'd' || c == 'D' || c == 'e' || c == 'E') {
                     ctx.label("name-with-exponent-like-fragment");
                 }
